@@ -138,9 +138,21 @@ func (t *c04T) alts() []*c04T {
 
 // c04MemKey: field `Field` of local struct `Alloc` at the entry of block `Block`.
 type c04MemKey struct {
-	Alloc *ssa.Alloc
-	Field int
+	Alloc ssa.Value // the variable: a local Alloc, or the FreeVar through which a closure sees it
+	Field int       // field of a struct variable; -1: the variable itself
 	Block *ssa.BasicBlock
+}
+
+// c04ClosureSite: where the closure reached by a call was created (frame and MakeClosure).
+type c04ClosureSite struct {
+	fr *c04Frame2
+	mc *ssa.MakeClosure
+}
+
+// c04Bind: where a closure's free variable lives (frame and variable of the creator).
+type c04Bind struct {
+	fr   *c04Frame2
+	base ssa.Value
 }
 
 type c04FrameKey struct {
@@ -152,6 +164,7 @@ type c04FrameKey struct {
 type c04Frame2 struct {
 	fn     *ssa.Function
 	call   ssa.CallInstruction // the call (in parent) this frame was entered from
+	fvBind map[*ssa.FreeVar]c04Bind
 	env    map[*ssa.Parameter]*c04T
 	fvEnv  map[*ssa.FreeVar]*c04T
 	parent *c04Frame2
@@ -172,13 +185,15 @@ type c04TermBuilder struct {
 	// (the loop-carried state of a loop whose variables live in a struct).
 	MemLeaves map[c04MemKey]*c04T
 	memBusy   map[c04MemKey]bool
+	memBusyF  map[*c04Frame2]map[c04MemKey]bool
+	closureOf map[c04FrameKey]c04ClosureSite
 	// Opaque callees are not inlined: their calls become "call" nodes
 	// (Name = position-free function name, Args = argument terms).
 	Opaque func(*ssa.Function) bool
 }
 
 func newC04TermBuilder(p *Prog) *c04TermBuilder {
-	return &c04TermBuilder{p: p, MemLeaves: map[c04MemKey]*c04T{}, memBusy: map[c04MemKey]bool{}, frames: map[c04FrameKey]*c04Frame2{}, Leaves: map[ssa.Value]*c04T{}, memo: map[*c04Frame2]map[ssa.Value]*c04T{}, busy: map[*c04Frame2]map[ssa.Value]bool{}, MaxDepth: 6}
+	return &c04TermBuilder{p: p, MemLeaves: map[c04MemKey]*c04T{}, memBusy: map[c04MemKey]bool{}, memBusyF: map[*c04Frame2]map[c04MemKey]bool{}, closureOf: map[c04FrameKey]c04ClosureSite{}, frames: map[c04FrameKey]*c04Frame2{}, Leaves: map[ssa.Value]*c04T{}, memo: map[*c04Frame2]map[ssa.Value]*c04T{}, busy: map[*c04Frame2]map[ssa.Value]bool{}, MaxDepth: 6}
 }
 
 // Root returns the frame of a root function: parameters are leaves.
@@ -250,6 +265,10 @@ func (tb *c04TermBuilder) build(fr *c04Frame2, v ssa.Value) *c04T {
 		if t, ok := fr.fvEnv[x]; ok {
 			return t
 		}
+		if b, ok := fr.fvBind[x]; ok {
+			// the frame is still being set up: the binding is known, its term is not yet
+			return tb.Term(b.fr, b.base)
+		}
 		return c04Unknown("free variable " + x.Name())
 	case *ssa.Global:
 		return &c04T{Op: "addr-global", Name: c04GlobalName(x)}
@@ -277,7 +296,7 @@ func (tb *c04TermBuilder) build(fr *c04Frame2, v ssa.Value) *c04T {
 		return tb.Term(fr, x.X)
 	case *ssa.UnOp:
 		if x.Op == token.MUL {
-			return tb.load(fr, x.X)
+			return tb.loadAt(fr, x.X, x)
 		}
 		return &c04T{Op: "un:" + x.Op.String(), Args: []*c04T{tb.Term(fr, x.X)}}
 	case *ssa.BinOp:
@@ -314,6 +333,9 @@ func (tb *c04TermBuilder) build(fr *c04Frame2, v ssa.Value) *c04T {
 				t := &c04T{Op: "struct", Name: namedKey(deref1(x.Type())), Src: x}
 				for i := 0; i < stt.NumFields(); i++ {
 					ft := tb.fieldStore(fr, x, i)
+					if ft != nil && c04FieldAddrEscapes(x, i) {
+						ft = c04Unknown("field written through a pointer kept elsewhere")
+					}
 					if ft == nil {
 						n := 0
 						for _, ref := range c04RealRefs(x) {
@@ -325,9 +347,28 @@ func (tb *c04TermBuilder) build(fr *c04Frame2, v ssa.Value) *c04T {
 								}
 							}
 						}
-						if n == 0 {
+						escapes := false
+						for _, ref := range c04RealRefs(x) {
+							if fa, ok := ref.(*ssa.FieldAddr); ok && fa.Field == i {
+								for _, r2 := range c04RealRefs(fa) {
+									switch y := r2.(type) {
+									case *ssa.UnOp:
+									case *ssa.Store:
+										if y.Addr != ssa.Value(fa) {
+											escapes = true // the field's address is kept somewhere: it may be written through that pointer
+										}
+									default:
+										escapes = true
+									}
+								}
+							}
+						}
+						switch {
+						case escapes:
+							ft = c04Unknown("field written through a pointer kept elsewhere")
+						case n == 0:
 							ft = &c04T{Op: "const", Name: "zero:" + stt.Field(i).Type().String()}
-						} else {
+						default:
 							ft = c04Unknown("field written several times")
 						}
 					}
@@ -384,7 +425,10 @@ func c04GlobalName(g *ssa.Global) string {
 }
 
 // load: the value stored at address a.
-func (tb *c04TermBuilder) load(fr *c04Frame2, a ssa.Value) *c04T {
+func (tb *c04TermBuilder) load(fr *c04Frame2, a ssa.Value) *c04T { return tb.loadAt(fr, a, nil) }
+
+// loadAt: the value stored at address a, read by instruction at (nil if not known).
+func (tb *c04TermBuilder) loadAt(fr *c04Frame2, a ssa.Value, at ssa.Instruction) *c04T {
 	switch x := a.(type) {
 	case *ssa.Global:
 		return &c04T{Op: "global", Name: c04GlobalName(x)}
@@ -420,10 +464,20 @@ func (tb *c04TermBuilder) load(fr *c04Frame2, a ssa.Value) *c04T {
 		if st := tb.build(fr, x); st.Op == "struct" {
 			return st // the value of a local composite literal
 		}
+		// a variable written several times and/or by closures that capture it: the store reaching this load
+		if at != nil && c04LocalCellOnly(x) {
+			return tb.MemAt(fr, x, -1, at.Block(), instrIndex(at))
+		}
 		return c04Unknown("local variable written several times")
 	case *ssa.IndexAddr:
 		return &c04T{Op: "index", Args: []*c04T{tb.Term(fr, x.X), tb.Term(fr, x.Index)}}
 	case *ssa.FreeVar:
+		// a captured variable seen from inside the closure
+		if at != nil {
+			if _, bound := fr.fvBind[x]; bound {
+				return tb.MemAt(fr, x, -1, at.Block(), instrIndex(at))
+			}
+		}
 		return &c04T{Op: "deref", Args: []*c04T{tb.Term(fr, x)}}
 	}
 	return &c04T{Op: "deref", Args: []*c04T{tb.Term(fr, a)}}
@@ -497,7 +551,15 @@ func (tb *c04TermBuilder) call(fr *c04Frame2, c *ssa.Call) *c04T {
 	callee := staticCallee(c)
 	if callee == nil {
 		// a call through a function value whose possible targets are visible in the package
-		tgts := tb.Targets(c)
+		var tgts []*ssa.Function
+		if fn, site, ok := tb.resolveFuncValue(fr, c.Call.Value, 0); ok {
+			tgts = []*ssa.Function{fn}
+			if site.mc != nil {
+				tb.closureOf[c04FrameKey{fr, c, fn}] = site
+			}
+		} else {
+			tgts = tb.Targets(c)
+		}
 		if len(tgts) == 0 {
 			return c04Unknown("dynamic call")
 		}
@@ -692,23 +754,49 @@ func (tb *c04TermBuilder) frameFor(fr *c04Frame2, c ssa.CallInstruction, callee 
 	if nf, ok := tb.frames[k]; ok {
 		return nf
 	}
-	nf := &c04Frame2{fn: callee, call: c, env: map[*ssa.Parameter]*c04T{}, fvEnv: map[*ssa.FreeVar]*c04T{}, parent: fr, depth: fr.depth + 1}
-	tb.frames[k] = nf
+	// the argument terms are built before the frame exists: building them may itself look into
+	// the callee (a captured variable the callee writes), and a half-made frame must not be seen
 	if args == nil {
 		for _, a := range c.Common().Args {
 			args = append(args, tb.Term(fr, a))
 		}
+		if nf, ok := tb.frames[k]; ok {
+			return nf
+		}
 	}
+	nf := &c04Frame2{fn: callee, call: c, env: map[*ssa.Parameter]*c04T{}, fvEnv: map[*ssa.FreeVar]*c04T{}, parent: fr, depth: fr.depth + 1}
 	for i, par := range callee.Params {
 		if i < len(args) {
 			nf.env[par] = args[i]
 		}
 	}
-	if mc, ok := c.Common().Value.(*ssa.MakeClosure); ok {
+	nf.fvBind = map[*ssa.FreeVar]c04Bind{}
+	mc, _ := c.Common().Value.(*ssa.MakeClosure)
+	creator := fr
+	if site, ok := tb.closureOf[k]; ok && mc == nil {
+		mc, creator = site.mc, site.fr
+	}
+	if mc == nil && len(callee.FreeVars) > 0 {
+		// the closure value reached the call through a variable/parameter: its creation is in an enclosing frame
+		for f := fr; f != nil && mc == nil; f = f.parent {
+			allInstrs(f.fn, func(in ssa.Instruction) {
+				if m, ok := in.(*ssa.MakeClosure); ok && m.Fn == ssa.Value(callee) && mc == nil {
+					mc, creator = m, f
+				}
+			})
+		}
+	}
+	if mc != nil {
 		for i, fv := range callee.FreeVars {
 			if i < len(mc.Bindings) {
-				nf.fvEnv[fv] = tb.Term(fr, mc.Bindings[i])
+				nf.fvBind[fv] = c04Bind{creator, mc.Bindings[i]}
 			}
+		}
+	}
+	tb.frames[k] = nf
+	for _, fv := range callee.FreeVars {
+		if b, ok := nf.fvBind[fv]; ok {
+			nf.fvEnv[fv] = tb.Term(b.fr, b.base)
 		}
 	}
 	return nf
@@ -722,6 +810,13 @@ func (tb *c04TermBuilder) inlinable(fr *c04Frame2, c ssa.CallInstruction) []*ssa
 		cands = tb.Targets(c)
 	} else if callee := staticCallee(c); callee != nil {
 		cands = []*ssa.Function{callee}
+	} else if fn, site, ok := tb.resolveFuncValue(fr, c.Common().Value, 0); ok {
+		// the function value is known in this calling context (a parameter bound at the call that
+		// entered this frame, the result of a factory, a literal)
+		cands = []*ssa.Function{fn}
+		if site.mc != nil {
+			tb.closureOf[c04FrameKey{fr, c, fn}] = site
+		}
 	} else {
 		cands = tb.Targets(c)
 	}
@@ -1115,51 +1210,299 @@ func c04LocalStructOnly(al *ssa.Alloc) bool {
 	return true
 }
 
-// MemAt: the term of field `field` of local struct al just before instruction
-// #idx of block b (idx = len(b.Instrs) for the end of the block): the last store
-// in the block, else the merge of what reaches the block's predecessors.
-func (tb *c04TermBuilder) MemAt(fr *c04Frame2, al *ssa.Alloc, field int, b *ssa.BasicBlock, idx int) *c04T {
+// c04LocalCellOnly: the local variable is only stored, loaded, or captured by closures (its address does not escape otherwise).
+func c04LocalCellOnly(al *ssa.Alloc) bool {
+	for _, ref := range c04RealRefs(al) {
+		switch x := ref.(type) {
+		case *ssa.Store:
+			if x.Addr != ssa.Value(al) {
+				return false
+			}
+		case *ssa.UnOp, *ssa.MakeClosure:
+		default:
+			return false
+		}
+	}
+	return true
+}
+
+// MemAt: the term of variable `base` (field >= 0: that field of a struct
+// variable; -1: the variable itself) just before instruction #idx of block b
+// (idx = len(b.Instrs) for the end of the block): the last store in the block —
+// a direct one, or the effect of a call of a closure that captures the
+// variable — else the merge of what reaches the block's predecessors.
+func (tb *c04TermBuilder) MemAt(fr *c04Frame2, base ssa.Value, field int, b *ssa.BasicBlock, idx int) *c04T {
+	t := tb.memAt(fr, base, field, b, idx)
+	if t.Op == "cycle" {
+		return c04Unknown("loop-carried value")
+	}
+	return t
+}
+
+// memAt is MemAt; a path that only leads back to the point being computed
+// contributes no value of its own and is reported as a "cycle" node, which
+// merges drop (the possible contents are the least fixpoint of the stores).
+func (tb *c04TermBuilder) memAt(fr *c04Frame2, base ssa.Value, field int, b *ssa.BasicBlock, idx int) *c04T {
 	if idx > len(b.Instrs) {
 		idx = len(b.Instrs)
 	}
 	for k := idx - 1; k >= 0; k-- {
-		st, ok := b.Instrs[k].(*ssa.Store)
-		if !ok {
-			continue
-		}
-		if fa, ok := st.Addr.(*ssa.FieldAddr); ok && fa.X == ssa.Value(al) && fa.Field == field {
-			return tb.Term(fr, st.Val)
-		}
-		if st.Addr == ssa.Value(al) {
-			whole := tb.Term(fr, st.Val)
-			if whole.Op == "struct" && field < len(whole.Args) {
-				return whole.Args[field]
+		switch st := b.Instrs[k].(type) {
+		case *ssa.Store:
+			if field >= 0 {
+				if fa, ok := st.Addr.(*ssa.FieldAddr); ok && fa.X == base && fa.Field == field {
+					return tb.Term(fr, st.Val)
+				}
+				if st.Addr == base {
+					whole := tb.Term(fr, st.Val)
+					if whole.Op == "struct" && field < len(whole.Args) {
+						return whole.Args[field]
+					}
+					if whole.Op == "const" && strings.HasPrefix(whole.Name, "zero:") {
+						return &c04T{Op: "const", Name: "zero:field"}
+					}
+					return c04Unknown("field of a stored struct value")
+				}
+			} else if st.Addr == base {
+				return tb.Term(fr, st.Val)
 			}
-			if whole.Op == "const" && strings.HasPrefix(whole.Name, "zero:") {
-				return &c04T{Op: "const", Name: "zero:field"}
+		case *ssa.Call:
+			if eff := tb.callEffect(fr, st, base, field); eff != nil {
+				return eff
 			}
-			return c04Unknown("field of a stored struct value")
 		}
 	}
-	key := c04MemKey{al, field, b}
+	key := c04MemKey{base, field, b}
 	if fr.parent == nil {
 		if l, ok := tb.MemLeaves[key]; ok {
 			return l
 		}
 	}
 	if b.Index == 0 || len(b.Preds) == 0 {
+		// function entry: a captured variable has the value it had where the closure was called
+		if fv, ok := base.(*ssa.FreeVar); ok {
+			if bd, bound := fr.fvBind[fv]; bound {
+				site := fr
+				for site != nil && site.parent != bd.fr {
+					site = site.parent
+				}
+				if site != nil && site.call != nil {
+					return tb.memAt(bd.fr, bd.base, field, site.call.Block(), instrIndex(site.call))
+				}
+				// the closure was made by a function that has returned (a factory): the variable holds
+				// what that function left in it
+				var alts []*c04T
+				for _, rb := range bd.fr.fn.Blocks {
+					if n := len(rb.Instrs); n > 0 {
+						if _, ok := rb.Instrs[n-1].(*ssa.Return); ok {
+							alts = append(alts, tb.MemAt(bd.fr, bd.base, field, rb, n))
+						}
+					}
+				}
+				if len(alts) > 0 {
+					return c04Choice(alts)
+				}
+			}
+			return c04Unknown("captured variable")
+		}
 		return &c04T{Op: "const", Name: "zero:field"}
 	}
-	if tb.memBusy[key] {
-		return c04Unknown("loop-carried value")
+	busy := tb.memBusyF[fr]
+	if busy == nil {
+		busy = map[c04MemKey]bool{}
+		tb.memBusyF[fr] = busy
 	}
-	tb.memBusy[key] = true
+	if busy[key] {
+		return &c04T{Op: "cycle"}
+	}
+	busy[key] = true
 	var alts []*c04T
 	for _, pb := range b.Preds {
-		alts = append(alts, tb.MemAt(fr, al, field, pb, len(pb.Instrs)))
+		if a := tb.memAt(fr, base, field, pb, len(pb.Instrs)); a.Op != "cycle" {
+			alts = append(alts, a)
+		}
 	}
-	tb.memBusy[key] = false
+	busy[key] = false
+	if len(alts) == 0 {
+		return &c04T{Op: "cycle"}
+	}
 	return c04Choice(alts)
+}
+
+// callEffect: if call c (in frame fr) enters a module closure that captures
+// variable `base`, the content of the variable after the call: the merge, over
+// the closure's returns, of what the variable holds there. nil: no callee of c
+// sees the variable.
+func (tb *c04TermBuilder) callEffect(fr *c04Frame2, c *ssa.Call, base ssa.Value, field int) *c04T {
+	// which closures write the variable at all is a fact of the program text: a variable that no
+	// closure writes is not changed by any call
+	writers, escapes := c04CellWriters(tb.cellRoot(fr, base))
+	if escapes {
+		return c04Unknown("variable whose address is kept by a closure")
+	}
+	if len(writers) == 0 {
+		return nil
+	}
+	var alts []*c04T
+	handled := map[*ssa.Function]bool{}
+	callees := tb.inlinable(fr, c)
+	for _, callee := range callees {
+		nf := tb.frameFor(fr, c, callee, nil)
+		var view *ssa.FreeVar
+		for _, fv := range callee.FreeVars {
+			if bd, ok := nf.fvBind[fv]; ok && bd.base == base && bd.fr == fr {
+				view = fv
+			}
+		}
+		if view == nil {
+			continue
+		}
+		handled[callee] = true
+		for _, rb := range callee.Blocks {
+			if n := len(rb.Instrs); n > 0 {
+				if _, ok := rb.Instrs[n-1].(*ssa.Return); ok {
+					alts = append(alts, tb.MemAt(nf, view, field, rb, n))
+				}
+			}
+		}
+	}
+	// a writer that is not the function called may still run during the call if the call is
+	// handed function values (arguments, or variables the called closure captures), or if the
+	// function called is not known
+	other := false
+	for w := range writers {
+		if !handled[w] {
+			other = true
+		}
+	}
+	if other && len(alts) == 0 {
+		if c04CallCarriesFuncs(c, callees) {
+			return c04Unknown("variable a closure handed to this call may write")
+		}
+	}
+	if len(alts) == 0 {
+		return nil
+	}
+	return c04Choice(alts)
+}
+
+// cellRoot: the local variable a captured variable of frame fr stands for.
+func (tb *c04TermBuilder) cellRoot(fr *c04Frame2, base ssa.Value) ssa.Value {
+	for i := 0; i < 8 && fr != nil; i++ {
+		fv, ok := base.(*ssa.FreeVar)
+		if !ok {
+			break
+		}
+		bd, bound := fr.fvBind[fv]
+		if !bound {
+			break
+		}
+		fr, base = bd.fr, bd.base
+	}
+	return base
+}
+
+// c04CellWriters: the closures (however deeply nested) that store to a view of
+// the variable; escapes: one of them uses its view other than to load, store or
+// capture it again.
+func c04CellWriters(cell ssa.Value) (map[*ssa.Function]bool, bool) {
+	writers := map[*ssa.Function]bool{}
+	escapes := false
+	var walk func(v ssa.Value, depth int)
+	walk = func(v ssa.Value, depth int) {
+		if depth > 6 {
+			escapes = true
+			return
+		}
+		for _, ref := range c04RealRefs(v) {
+			mc, ok := ref.(*ssa.MakeClosure)
+			if !ok {
+				continue
+			}
+			fn, _ := mc.Fn.(*ssa.Function)
+			if fn == nil {
+				escapes = true
+				continue
+			}
+			for i, bnd := range mc.Bindings {
+				if bnd != v || i >= len(fn.FreeVars) {
+					continue
+				}
+				fv := fn.FreeVars[i]
+				for _, r2 := range c04RealRefs(fv) {
+					switch y := r2.(type) {
+					case *ssa.Store:
+						if y.Addr == ssa.Value(fv) {
+							writers[fn] = true
+						} else {
+							escapes = true
+						}
+					case *ssa.UnOp, *ssa.MakeClosure:
+					case *ssa.FieldAddr:
+						// a field of a captured struct variable: stores through it are writes
+						for _, r3 := range c04RealRefs(y) {
+							switch z := r3.(type) {
+							case *ssa.Store:
+								if z.Addr == ssa.Value(y) {
+									writers[fn] = true
+								} else {
+									escapes = true
+								}
+							case *ssa.UnOp:
+							default:
+								escapes = true
+							}
+						}
+					default:
+						escapes = true
+					}
+				}
+				walk(fv, depth+1)
+			}
+		}
+	}
+	walk(cell, 0)
+	return writers, escapes
+}
+
+// c04CallCarriesFuncs: call c hands function values to what it calls, or what it calls is not known.
+func c04CallCarriesFuncs(c *ssa.Call, callees []*ssa.Function) bool {
+	isFn := func(t types.Type) bool {
+		if p, ok := t.Underlying().(*types.Pointer); ok {
+			t = p.Elem()
+		}
+		switch t.Underlying().(type) {
+		case *types.Signature, *types.Interface:
+			return true
+		}
+		return false
+	}
+	if c.Common().IsInvoke() {
+		return true
+	}
+	if staticCallee(c) == nil && len(callees) == 0 {
+		return true
+	}
+	for _, a := range c.Common().Args {
+		if isFn(a.Type()) {
+			return true
+		}
+	}
+	if mc, ok := c.Common().Value.(*ssa.MakeClosure); ok {
+		for _, b := range mc.Bindings {
+			if isFn(b.Type()) {
+				return true
+			}
+		}
+	}
+	for _, callee := range callees {
+		for _, fv := range callee.FreeVars {
+			if isFn(fv.Type()) {
+				return true
+			}
+		}
+	}
+	return false
 }
 
 // c04Enterable: fn's body belongs to the analysed module — a declared function
@@ -1180,4 +1523,81 @@ func c04Enterable(p *Prog, fn *ssa.Function) bool {
 
 func c04InMod(p *Prog) func(*ssa.Function) bool {
 	return func(f *ssa.Function) bool { return c04Enterable(p, f) }
+}
+
+// c04FieldAddrEscapes: the address of field i of local al is used other than for direct loads and stores.
+func c04FieldAddrEscapes(al *ssa.Alloc, i int) bool {
+	for _, ref := range c04RealRefs(al) {
+		if fa, ok := ref.(*ssa.FieldAddr); ok && fa.Field == i {
+			for _, r2 := range c04RealRefs(fa) {
+				switch y := r2.(type) {
+				case *ssa.UnOp:
+				case *ssa.Store:
+					if y.Addr != ssa.Value(fa) {
+						return true
+					}
+				default:
+					return true
+				}
+			}
+		}
+	}
+	return false
+}
+
+// resolveFuncValue: the one function a function value denotes in the calling
+// context of frame fr: a function, a closure literal, a parameter (looked up at
+// the call that entered the frame), the result of a module function that
+// returns a closure (a factory such as truncateTo(d)).
+func (tb *c04TermBuilder) resolveFuncValue(fr *c04Frame2, v ssa.Value, depth int) (*ssa.Function, c04ClosureSite, bool) {
+	if depth > 6 || fr == nil {
+		return nil, c04ClosureSite{}, false
+	}
+	switch x := v.(type) {
+	case *ssa.Function:
+		return origin(x), c04ClosureSite{}, true
+	case *ssa.MakeClosure:
+		return origin(x.Fn.(*ssa.Function)), c04ClosureSite{fr, x}, true
+	case *ssa.ChangeType:
+		return tb.resolveFuncValue(fr, x.X, depth+1)
+	case *ssa.Parameter:
+		if fr.parent == nil || fr.call == nil {
+			return nil, c04ClosureSite{}, false
+		}
+		idx := c04ParamIndex(fr.fn, x)
+		args := fr.call.Common().Args
+		if idx < 0 || idx >= len(args) {
+			return nil, c04ClosureSite{}, false
+		}
+		return tb.resolveFuncValue(fr.parent, args[idx], depth+1)
+	case *ssa.Call:
+		callee := staticCallee(x)
+		if callee == nil || !c04Enterable(tb.p, callee) || len(callee.Blocks) == 0 || callee.Signature.Results().Len() != 1 {
+			return nil, c04ClosureSite{}, false
+		}
+		nf := tb.frameFor(fr, x, callee, nil)
+		var fn *ssa.Function
+		var site c04ClosureSite
+		n := 0
+		for _, b := range callee.Blocks {
+			if k := len(b.Instrs); k > 0 {
+				if ret, ok := b.Instrs[k-1].(*ssa.Return); ok {
+					f, s2, ok := tb.resolveFuncValue(nf, ret.Results[0], depth+1)
+					if !ok {
+						return nil, c04ClosureSite{}, false
+					}
+					if n > 0 && f != fn {
+						return nil, c04ClosureSite{}, false
+					}
+					fn, site = f, s2
+					n++
+				}
+			}
+		}
+		if n == 0 {
+			return nil, c04ClosureSite{}, false
+		}
+		return fn, site, true
+	}
+	return nil, c04ClosureSite{}, false
 }
